@@ -3,6 +3,7 @@
 //! usage: verif-harness <domain> [key=value ...]
 
 mod mem;
+mod memc;
 mod rng;
 
 use std::collections::BTreeMap;
@@ -27,6 +28,7 @@ fn main() {
     }
     let code = match domain.as_str() {
         "mem" => mem::main(&args),
+        "memc" => memc::main(&args),
         _ => {
             eprintln!("unknown domain {domain:?}");
             2
